@@ -44,6 +44,7 @@ def main(tier):
     known = [k for k in common.load_known() if k["property"] == PID]
     nontriv = set()
     evals = 0
+    nknown = 0
     for rec in recs:
         key = rec["family"] + json.dumps(rec["params"], sort_keys=True)
         if "error" in rec:
@@ -59,12 +60,14 @@ def main(tier):
             kf = [k for k in known if k["family"] == rec["family"] and all(rec["params"].get(a) == b for a, b in k.get("params", {}).items())]
             if kf:
                 R.known_finding(kf[0]["id"], kf[0]["what"])
+                nknown += 1
                 continue
             R.violation("adjoint is not the conjugate transpose of forward: %s %s |defect|=%.3g at u=e_%d v=e_%d"
                         % (rec["family"], rec["params"], rp["abs_defect"], rp["u_index"], rp["v_index"]), rp)
     fams = sorted(set(r["family"] for r in recs))
     R.cov.update(
-        obligations=len(thms) + len(recs), discharged=len(thms) + sum(1 for r in recs if "error" not in r and not ({3, 4} & set(codes.get(r["id"], [])))),
+        obligations=len(thms) + len(recs) - nknown, known_finding_cases=nknown,
+        discharged=len(thms) + sum(1 for r in recs if "error" not in r and not ({3, 4} & set(codes.get(r["id"], [])))),
         checker_cmd="make -C coq (coqc 8.16.1, full .vo build) + coqc Props/C01.v (Print Assumptions) + coqc .work/oprun/cases_*.v (vm_compute)",
         theorems=thms, axioms_reported=axioms,
         evaluations=evals, distinct_nontrivial=len(nontriv),
